@@ -33,6 +33,21 @@ def entry_summary(S, e):
     return res
 
 
+def filter_orders(tier, field_type="scalar"):
+    """filter orders analysed per tier: the symbolic cost of the iterated stencil grows about 4x per order (the kernel's own loop
+    `for _ in range(filter_order)` is unrolled); orders above the thorough bound are outside the analysed set (evidence says so)"""
+    if tier == "quick":
+        return (1, 2)
+    return (1, 2, 3, 4) if field_type == "scalar" else (1, 2, 3)
+
+
+def entry_by_label(label):
+    for e in CATALOGUE:
+        if e.label() == label:
+            return e
+    raise Unsupported("catalogue entry %s vanished" % label)
+
+
 def short(e, n=400):
     s = repr(e)
     return s if len(s) <= n else s[:n] + "..."
